@@ -6,7 +6,8 @@ LEAN_MODULES = ["PomerolModel.Properties.C08"]
 GENERATED = ["gf"]
 THEOREMS = ["Pomerol.Properties.C08." + t for t in (
     "green_function_partition_independent", "susceptibility_partition_independent", "two_particle_partition_independent",
-    "averages_partition_independent", "spectrum_partition_independent")]
+    "averages_partition_independent", "spectrum_partition_independent", "observables_same_for_two_decompositions",
+    "averages_same_for_two_decompositions", "stripe_selection_partition_independent")]
 RULE = ("a case = one random model evaluated under 3-4 partitions (default, ignored, accepted custom sets); spectrum, weights-"
         "derived averages, G (all requested components), chi_AB, chi4 and ensemble averages are compared pairwise between the "
         "runs (implementation vs implementation) and each run against the partition-free full-space oracle; "
